@@ -1,14 +1,64 @@
 // tables2coq reads jennifer's source (current working tree) with go/parser and prints
 // Coq definitions of its data: the construct table as compiled (jen/generated.go), the
 // construct table as specified (genjen/data.go), the one-token constructs, the reserved
-// word list, the standard-library hint table, package-level variables with a "written"
-// flag, and func-typed fields of Code implementations.
+// word list, the standard-library hint table - and, since the fourth referee, how the code
+// of package jen USES these tables (shapes.go, uses.go).
+//
+// Everything below is TRUSTED (it is a reading of Go source, not checked by Coq); what Coq
+// checks is the printed result (coq/Spec/TableUses.v, Proofs/SyntaxProofs.v tables_agree).
+//
+// 1. jen/generated.go (shapes.go).  Every declaration of the file must be a function with
+//    result *Statement whose parameters are `name Code`..., ONE `name ...Code`, or ONE
+//    `f func(*Group)`, and whose body is EXACTLY one of the five shapes genjen/render.go emits
+//    (comments are not statements; the order of the literal's fields is free, each field once):
+//      Statement/group  x := &Group{items: <P>, name: "..", open: "..", close: "..", separator: "..", multi: <bool>}
+//                       *s = append(*s, x); return s
+//                       where <P> is the variadic parameter itself, or []Code{p1, ..., pn} = all
+//                       parameters in order;
+//      Statement/Func   x := &Group{name, open, close, separator, multi}; f(x); *s = append(*s, x); return s
+//      Statement/token  x := token{typ: <ident>, content: ".."}; *s = append(*s, x); return s   (no parameters)
+//      package          return newStatement().M(p1, ..., pn[...])
+//      Group            x := M(p1, ..., pn[...]); g.items = append(g.items, x); return x
+//    and every Statement method M has exactly one package function M and one Group method M with
+//    the same parameter list (and conversely).  Any deviation is a table_problem naming the
+//    function, and the row is NOT printed (so a construct written through a helper such as
+//    newGroup(...) is reported twice: as a problem and as a missing row).
+// 2. IsReservedWord (jen/reserved.go) must be literally
+//      func IsReservedWord(a string) bool { for _, n := range reserved { if a == n { return true } }; return false }
+//    (`n == a` is accepted too); (*File).isValidAlias(a string) bool must contain, as a statement
+//    of its body, `if IsReservedWord(a) { return false }`; the statements of isValidAlias up to
+//    and including that one are printed (isvalidalias_head, parameters renamed $1.., receiver $r).
+// 3. The choice of the import name (uses.go): the one function that mentions standardLibraryHints
+//    must contain a CHOICE CHAIN in one of two forms
+//      A (in (*File).register)   if [v := e;] c1 { N = n1; A = a1 } else if ... else { N = nk; A = ak }
+//      B (whole body of an unexported method H of *File with one parameter and two results, which
+//         register calls once, at statement level, as `N, A := f.H(path)` with its own receiver and
+//         parameter, and which nothing else in the package mentions)
+//                                 if [v := e;] c1 { return n1, a1 } ... return nk, ak
+//    It is printed as name_choice: the list of (condition, name, alias) source texts, parameters
+//    renamed $1.., receiver $r, and a variable v of an if-initialiser `v := e` REPLACED by e when
+//    e is built from identifiers, selectors and index expressions only (no call: reading it twice
+//    is the same as reading it once) and v is not N or A.  Coq fixes the three arms.
+// 4. table_uses: EVERY identifier named standardLibraryHints, reserved, guessAlias or
+//    IsReservedWord in the non-test .go files of jen/ (all of them, whatever their build tags),
+//    with the enclosing function and a role: decl | range-in-IsReservedWord |
+//    guard-in-isValidAlias | choice | package-name-in-NewFilePath (the call guessAlias(p) on
+//    NewFilePath's own parameter, anywhere in NewFilePath).  Anything else - a write
+//    (assignment, ++, range variable, delete/append/copy/clear), an address-of, a further
+//    reader, a selector or a local declaration with one of these names - is printed with a role
+//    that Coq rejects and is also a problem.
+// 5. Any func init() in these files is a problem, and so is a package-level declaration of
+//    append, len, true, false, string or bool (the shapes above rely on their predeclared meaning).
+// Problems are printed three times: table_problems (everything that concerns the construct
+// tables + the literals + 5 + writes; C01), reserved_problems (C05), hints_problems (C18).
 package main
 
 import (
+	"bytes"
 	"fmt"
 	"go/ast"
 	"go/parser"
+	"go/printer"
 	"go/token"
 	"os"
 	"path/filepath"
@@ -67,41 +117,51 @@ type groupRow struct {
 	variadic               bool
 	nparams                int
 	isFunc                 bool // ...Func variant (callback)
-	problems               []string
 }
 
-func recvIs(fd *ast.FuncDecl, typ string) bool {
-	if fd.Recv == nil || len(fd.Recv.List) != 1 {
-		return false
+type tokRow struct{ method, typ, text string }
+
+// text prints a node as source text on one line (white space collapsed), with the identifiers
+// in subst replaced (not the selector of x.sel, not the key of a key: value pair).
+func text(n ast.Node, subst map[string]string) string {
+	type saved struct {
+		id   *ast.Ident
+		name string
 	}
-	st, ok := fd.Recv.List[0].Type.(*ast.StarExpr)
-	if !ok {
-		return false
+	var undo []saved
+	skip := map[*ast.Ident]bool{}
+	ast.Inspect(n, func(m ast.Node) bool {
+		switch x := m.(type) {
+		case *ast.SelectorExpr:
+			skip[x.Sel] = true
+		case *ast.KeyValueExpr:
+			if id, ok := x.Key.(*ast.Ident); ok {
+				skip[id] = true
+			}
+		case *ast.Ident:
+			if r, ok := subst[x.Name]; ok && !skip[x] {
+				undo = append(undo, saved{x, x.Name})
+				x.Name = r
+			}
+		}
+		return true
+	})
+	var buf bytes.Buffer
+	if err := printer.Fprint(&buf, fset, n); err != nil {
+		die("printing: %v", err)
 	}
-	id, ok := st.X.(*ast.Ident)
-	return ok && id.Name == typ
+	for _, u := range undo {
+		u.id.Name = u.name
+	}
+	return strings.Join(strings.Fields(buf.String()), " ")
 }
 
-// find `x := &Group{...}` or `x := token{...}` in a body
-func findComposite(body *ast.BlockStmt, typ string) *ast.CompositeLit {
-	for _, st := range body.List {
-		as, ok := st.(*ast.AssignStmt)
-		if !ok || len(as.Rhs) != 1 {
-			continue
-		}
-		e := as.Rhs[0]
-		if ue, ok := e.(*ast.UnaryExpr); ok && ue.Op == token.AND {
-			e = ue.X
-		}
-		cl, ok := e.(*ast.CompositeLit)
-		if !ok {
-			continue
-		}
-		if id, ok := cl.Type.(*ast.Ident); ok && id.Name == typ {
-			return cl
-		}
+func coqStrs(l []string) string {
+	var ps []string
+	for _, p := range l {
+		ps = append(ps, coqfmt.Str(p))
 	}
-	return nil
+	return coqfmt.List(ps, "  ")
 }
 
 func main() {
@@ -117,101 +177,14 @@ func main() {
 	fmt.Fprintln(out, "Record token_row := { tr_method : str; tr_type : str; tr_text : str }.")
 	fmt.Fprintln(out)
 
+	var problems []string  // construct tables and literals (C01)
+	var rproblems []string // reserved words (C05)
+	var hproblems []string // hint table (C18)
+
 	// ---- jen/generated.go: compiled construct table -------------------------------
 	gen := parseFile(filepath.Join(repo, "jen", "generated.go"))
-	var rows []groupRow
-	type tokRow struct{ method, typ, text string }
-	var toks []tokRow
-	var problems []string
-	for _, d := range gen.Decls {
-		fd, ok := d.(*ast.FuncDecl)
-		if !ok || fd.Body == nil || !recvIs(fd, "Statement") {
-			continue
-		}
-		if cl := findComposite(fd.Body, "Group"); cl != nil {
-			r := groupRow{method: fd.Name.Name}
-			np := 0
-			for _, p := range fd.Type.Params.List {
-				n := len(p.Names)
-				if n == 0 {
-					n = 1
-				}
-				np += n
-				if _, ok := p.Type.(*ast.Ellipsis); ok {
-					r.variadic = true
-				}
-				if _, ok := p.Type.(*ast.FuncType); ok {
-					r.isFunc = true
-				}
-			}
-			r.nparams = np
-			seen := map[string]bool{}
-			for _, el := range cl.Elts {
-				kv, ok := el.(*ast.KeyValueExpr)
-				if !ok {
-					r.problems = append(r.problems, "non key-value element")
-					continue
-				}
-				k := kv.Key.(*ast.Ident).Name
-				seen[k] = true
-				switch k {
-				case "name", "open", "close", "separator":
-					s, ok := strLit(kv.Value)
-					if !ok {
-						r.problems = append(r.problems, k+" is not a string literal")
-					}
-					switch k {
-					case "name":
-						r.name = s
-					case "open":
-						r.open = s
-					case "close":
-						r.close = s
-					case "separator":
-						r.sep = s
-					}
-				case "multi":
-					b, ok := boolLit(kv.Value)
-					if !ok {
-						r.problems = append(r.problems, "multi is not a bool literal")
-					}
-					r.multi = b
-				case "items":
-				default:
-					r.problems = append(r.problems, "unknown field "+k)
-				}
-			}
-			for _, p := range r.problems {
-				problems = append(problems, r.method+": "+p)
-			}
-			rows = append(rows, r)
-			continue
-		}
-		if cl := findComposite(fd.Body, "token"); cl != nil {
-			t := tokRow{method: fd.Name.Name}
-			for _, el := range cl.Elts {
-				kv, ok := el.(*ast.KeyValueExpr)
-				if !ok {
-					continue
-				}
-				switch kv.Key.(*ast.Ident).Name {
-				case "typ":
-					if id, ok := kv.Value.(*ast.Ident); ok {
-						t.typ = id.Name
-					}
-				case "content":
-					s, ok := strLit(kv.Value)
-					if !ok {
-						problems = append(problems, t.method+": content is not a string literal")
-					}
-					t.text = s
-				}
-			}
-			toks = append(toks, t)
-			continue
-		}
-		problems = append(problems, fd.Name.Name+": body builds neither a Group nor a token")
-	}
+	rows, toks, gp := readGenerated(gen)
+	problems = append(problems, gp...)
 	var es []string
 	for _, r := range rows {
 		es = append(es, fmt.Sprintf("{| gr_method := %s; gr_name := %s; gr_open := %s; gr_close := %s; gr_sep := %s; gr_multi := %s; gr_variadic := %s; gr_nparams := %d; gr_func := %s |}",
@@ -325,6 +298,10 @@ func main() {
 	res := parseFile(filepath.Join(repo, "jen", "reserved.go"))
 	var reserved []string
 	foundReserved := false
+	both := func(l *[]string, p string) {
+		problems = append(problems, p)
+		*l = append(*l, p)
+	}
 	for _, d := range res.Decls {
 		gd, ok := d.(*ast.GenDecl)
 		if !ok || gd.Tok != token.VAR {
@@ -335,14 +312,14 @@ func main() {
 			if len(vs.Names) == 1 && vs.Names[0].Name == "reserved" && len(vs.Values) == 1 {
 				cl, ok := vs.Values[0].(*ast.CompositeLit)
 				if !ok {
-					problems = append(problems, "reserved is not a composite literal")
+					both(&rproblems, "reserved is not a composite literal")
 					continue
 				}
 				foundReserved = true
 				for _, e := range cl.Elts {
 					s, ok := strLit(e)
 					if !ok {
-						problems = append(problems, "reserved: non-literal element")
+						both(&rproblems, "reserved: non-literal element")
 					}
 					reserved = append(reserved, coqfmt.Str(s))
 				}
@@ -350,7 +327,7 @@ func main() {
 		}
 	}
 	if !foundReserved {
-		problems = append(problems, "var reserved not found in jen/reserved.go")
+		both(&rproblems, "var reserved not found in jen/reserved.go")
 	}
 	fmt.Fprintf(out, "Definition reserved : list str := %s.\n\n", coqfmt.List(reserved, "  "))
 
@@ -368,7 +345,7 @@ func main() {
 			if len(vs.Names) == 1 && vs.Names[0].Name == "standardLibraryHints" && len(vs.Values) == 1 {
 				cl, ok := vs.Values[0].(*ast.CompositeLit)
 				if !ok {
-					problems = append(problems, "standardLibraryHints is not a composite literal")
+					both(&hproblems, "standardLibraryHints is not a composite literal")
 					continue
 				}
 				foundHints = true
@@ -377,13 +354,13 @@ func main() {
 				for _, e := range cl.Elts {
 					kv, ok := e.(*ast.KeyValueExpr)
 					if !ok {
-						problems = append(problems, "standardLibraryHints: element is not key: value")
+						both(&hproblems, "standardLibraryHints: element is not key: value")
 						continue
 					}
 					k, ok1 := strLit(kv.Key)
 					v, ok2 := strLit(kv.Value)
 					if !ok1 || !ok2 {
-						problems = append(problems, "standardLibraryHints: non-literal entry")
+						both(&hproblems, "standardLibraryHints: non-literal entry")
 					}
 					kvs = append(kvs, kvp{k, v})
 				}
@@ -395,13 +372,32 @@ func main() {
 		}
 	}
 	if !foundHints {
-		problems = append(problems, "var standardLibraryHints not found in jen/hints.go")
+		both(&hproblems, "var standardLibraryHints not found in jen/hints.go")
 	}
 	fmt.Fprintf(out, "Definition std_hints : list (str * str) := %s.\n\n", coqfmt.List(hints, "  "))
 
-	var ps []string
-	for _, p := range problems {
-		ps = append(ps, coqfmt.Str(p))
+	// ---- how package jen uses the tables ---------------------------------------------
+	u := scanUses(filepath.Join(repo, "jen"))
+	problems = append(problems, u.common...)
+	rproblems = append(rproblems, u.common...)
+	hproblems = append(hproblems, u.common...)
+	rproblems = append(rproblems, u.reserved...)
+	hproblems = append(hproblems, u.hints...)
+
+	es = nil
+	for _, r := range u.rows {
+		es = append(es, fmt.Sprintf("(%s, %s, %s)", coqfmt.Str(r.ident), coqfmt.Str(r.fn), coqfmt.Str(r.role)))
 	}
-	fmt.Fprintf(out, "(* shapes the translator could not read; must be empty *)\nDefinition table_problems : list str := %s.\n", coqfmt.List(ps, "  "))
+	fmt.Fprintf(out, "(* every identifier with the name of a table or of its reader in the .go files of jen/ (not _test): (identifier, function, role) *)\nDefinition table_uses : list (str * str * str) := %s.\n\n", coqfmt.List(es, "  "))
+	es = nil
+	for _, a := range u.choice {
+		es = append(es, fmt.Sprintf("(%s, %s, %s)", coqfmt.Str(a.cond), coqfmt.Str(a.name), coqfmt.Str(a.alias)))
+	}
+	fmt.Fprintf(out, "(* the choice of an import's name: (condition, name, alias) per arm; $r receiver, $1 parameter *)\nDefinition name_choice : list (str * str * str) := %s.\n", coqfmt.List(es, "  "))
+	fmt.Fprintf(out, "Definition name_choice_link : str := %s.\n\n", coqfmt.Str(u.link))
+	fmt.Fprintf(out, "(* the statements of File.isValidAlias up to the reserved-word test *)\nDefinition isvalidalias_head : list str := %s.\n\n", coqStrs(u.head))
+
+	fmt.Fprintf(out, "(* shapes the translator could not read; must be empty *)\nDefinition table_problems : list str := %s.\n", coqStrs(problems))
+	fmt.Fprintf(out, "Definition reserved_problems : list str := %s.\n", coqStrs(rproblems))
+	fmt.Fprintf(out, "Definition hints_problems : list str := %s.\n", coqStrs(hproblems))
 }
